@@ -586,7 +586,8 @@ pub fn record(mode: &str, seed: u64, n: usize, out: &mut Out) {
         }
         // C19: fixed-size NUL-terminated fields
         "zstr" => {
-            let alphabet: [u8; 12] = [0, b'A', b'z', 0xC3, 0xA9, 0xE2, 0x82, 0xAC, 0xF0, 0x9F, 0x98, 0xFF];
+            // NUL, ASCII, blank / tab / NBSP (what a trimming normalisation would remove), complete and incomplete multi-byte sequences
+            let alphabet: [u8; 16] = [0, b'A', b'z', b' ', b'\t', 0xC2, 0xA0, 0xC3, 0xA9, 0xE2, 0x82, 0xAC, 0xF0, 0x9F, 0x98, 0xFF];
             for i in 0..n {
                 let len = if i % 50 == 49 { r.below(70000) as usize } else { r.below(12) as usize };
                 let buf: Vec<u8> = match r.below(3) {
@@ -666,6 +667,11 @@ pub fn exact_payload(r: &mut Rng, types: &[TypeInfo], be: bool) -> Vec<u8> {
 fn junk_bytes(r: &mut Rng) -> Vec<u8> {
     let n = r.below(14) as usize;
     let alpha = [b'D', b'L', b'T', 1u8, b'X', 0u8];
+    // longer runs of one filler byte (zero padding of preallocated files, erased flash, blanks) and longer random junk
+    if r.one_in(6) {
+        let k = 16 + r.below(80) as usize;
+        return match r.below(3) { 0 => vec![*r.pick(&[0u8, 0xFF, b' ']); k], 1 => r.bytes(k), _ => { let mut v = vec![0u8; k]; v.extend(b"DL"); v } };
+    }
     match r.below(3) {
         0 => r.bytes(n),
         1 => (0..n).map(|_| *r.pick(&alpha)).collect(),
